@@ -619,9 +619,15 @@ impl Gen {
             }
             Kind::Bind => {
                 for _ in 0..8 {
-                    let (a, b) = (self.pick_present(m)?, self.pick_present(m)?);
+                    let (a, mut b) = (self.pick_present(m)?, self.pick_present(m)?);
                     let l = if !m.present[&a].edges.is_empty() && self.rng.chance(2, 5) {
                         let k = self.rng.below(m.present[&a].edges.len());
+                        // now and then the very same edge again: same label, same target (which may
+                        // have died and come back since the edge was made)
+                        let t = m.present[&a].edges[k].1;
+                        if t != a && m.is_present(t) && self.rng.chance(1, 2) {
+                            b = t;
+                        }
                         m.present[&a].edges[k].0.clone()
                     } else {
                         self.label()
@@ -899,6 +905,34 @@ impl Gen {
                 // data, and is then read to death
                 if m.groups_alive() >= MAX_GROUPS {
                     return None;
+                }
+                if self.rng.chance(1, 4) && m.groups_alive() + 2 <= MAX_GROUPS {
+                    // an edge that outlives its target: p (group A) points at r (group B), B dies, r is
+                    // added again, gets a datum while ungrouped and is bound by the very same edge
+                    // (joins A: its datum must count), then another put + read in A
+                    let mut absent: Vec<usize> = (0..m.cap).filter(|v| !m.is_present(*v)).collect();
+                    if absent.len() >= 4 {
+                        self.rng.shuffle(&mut absent);
+                        let (p, q, r, t) = (Id::L(absent[0]), Id::L(absent[1]), Id::L(absent[2]), Id::L(absent[3]));
+                        let (l1, l2) = (self.label(), self.label());
+                        for v in [q, r, t] {
+                            self.queue.push_back(Step::Add { i, v });
+                        }
+                        self.queue.push_back(Step::Bind { i, a: q, b: p, l: l1.clone() });
+                        self.queue.push_back(Step::Bind { i, a: r, b: t, l: l1 });
+                        self.queue.push_back(Step::Bind { i, a: p, b: r, l: l2.clone() });
+                        let d = self.data_bytes();
+                        self.queue.push_back(Step::Put { i, v: t, d });
+                        self.queue.push_back(Step::Data { i, v: t });
+                        self.queue.push_back(Step::Add { i, v: r });
+                        let d = self.data_bytes();
+                        self.queue.push_back(Step::Put { i, v: r, d });
+                        self.queue.push_back(Step::Bind { i, a: p, b: r, l: l2 });
+                        let d = self.data_bytes();
+                        self.queue.push_back(Step::Put { i, v: q, d });
+                        self.queue.push_back(Step::Data { i, v: q });
+                        return Some(Step::Add { i, v: p });
+                    }
                 }
                 let size = if self.rng.chance(2, 3) { MAX_GROUP } else { MAX_GROUP - 1 };
                 let mut absent: Vec<usize> = (0..m.cap).filter(|v| !m.is_present(*v)).collect();
